@@ -420,7 +420,10 @@ func Run(t *testing.T, p *Proc, spec *Spec) *Outcome {
 		spec.StepBudget = 4000
 	}
 	if spec.EOFBound == 0 {
-		spec.EOFBound = 64
+		// A command repeated by its numeric argument may ask for its argument key once per
+		// iteration, and each request fails at once after the end of input: that loop is bounded
+		// by the argument (generated scripts keep arguments <= 999), it is not a livelock.
+		spec.EOFBound = 2500
 	}
 	func() {
 		defer func() {
